@@ -61,8 +61,7 @@ pub proof fn axiom_token_vec_len(v: &Vec<tokenizer::Token>)
 {}
 
 // ---- C10 vocabulary: tag names and the tree as token values (needs stack_vocab.vs) ----
-/// the tag name element_parser::parse yields for a token (None: not a well-formed tag)
-pub uninterp spec fn ep_name<'a, 'b, 'c>(t: tokenizer::Token<'a, 'b, 'c>) -> Option<Seq<char>>;
+// (ep_name - the tag name element_parser::parse yields for a token - is defined in ep_vocab.vs)
 pub type Tok<'a, 'b, 'c> = tokenizer::Token<'a, 'b, 'c>;
 /// tag name of a token: element tokens that element_parser accepts
 pub open spec fn tok_nm<'a, 'b, 'c>() -> spec_fn(Tok<'a, 'b, 'c>) -> Option<Seq<char>> {
